@@ -129,41 +129,43 @@ func checkC13(w *World, r *Report) {
 	r.guard("R13.2", func() {
 		gd := w.Method("compile", "Compiler", "getDefault")
 		fd, _ := w.FuncDecl(gd)
-		base, def, has := paramObj(p, fd, 0), paramObj(p, fd, 1), paramObj(p, fd, 2)
 		ok := false
-		if len(fd.Body.List) == 2 {
-			if is, isIf := fd.Body.List[0].(*ast.IfStmt); isIf {
-				conds := map[string]bool{}
-				var walk func(e ast.Expr)
-				walk = func(e ast.Expr) {
-					e = ast.Unparen(e)
-					if be, ok := e.(*ast.BinaryExpr); ok && be.Op == token.LOR {
-						walk(be.X)
-						walk(be.Y)
-						return
-					}
-					if be, ok := e.(*ast.BinaryExpr); ok && be.Op == token.EQL && objOfIdent(p, be.X) == base && isNilIdent(p, be.Y) {
-						conds["base==nil"] = true
-						return
-					}
-					if objOfIdent(p, e) == has {
-						conds["hasDef"] = true
-						return
-					}
-					conds["?"] = true
+		if f := w.SSAFunc(gd); f != nil && len(f.Params) == 4 && len(ssaLoops(f)) == 0 {
+			// exits returning (def, hasDef) are taken iff base == nil || hasDef; the others return base.Default()
+			sym := NewSym(w)
+			base, def, has := ssa.Value(f.Params[1]), ssa.Value(f.Params[2]), ssa.Value(f.Params[3])
+			r0, r1 := sym.retTable(f, 0), sym.retTable(f, 1)
+			own := pcZ
+			good := len(r0) == len(r1) && len(r0) > 0
+			inherits := false
+			for i := range r0 {
+				if !good {
+					break
 				}
-				walk(is.Cond)
-				rets := returnsIn(is.Body)
-				own := len(rets) == 1 && len(rets[0].Results) == 2 && objOfIdent(p, rets[0].Results[0]) == def && objOfIdent(p, rets[0].Results[1]) == has
-				inherits := false
-				if ret, isR := fd.Body.List[1].(*ast.ReturnStmt); isR && len(ret.Results) == 1 {
-					if ce, isC := ret.Results[0].(*ast.CallExpr); isC {
-						if se, isS := ce.Fun.(*ast.SelectorExpr); isS && se.Sel.Name == "Default" && objOfIdent(p, se.X) == base {
-							inherits = true
-						}
+				if r0[i].val == def && r1[i].val == has {
+					own = pcOrF(own, r0[i].cond)
+					continue
+				}
+				e0, ok0 := r0[i].val.(*ssa.Extract)
+				e1, ok1 := r1[i].val.(*ssa.Extract)
+				if ok0 && ok1 && e0.Tuple == e1.Tuple && e0.Index == 0 && e1.Index == 1 {
+					if c, isC := e0.Tuple.(*ssa.Call); isC && c.Call.IsInvoke() && c.Call.Method.Name() == "Default" && stripIface(c.Call.Value) == base {
+						inherits = true
+						continue
 					}
 				}
-				ok = own && inherits && conds["hasDef"] && conds["base==nil"] && !conds["?"]
+				good = false
+			}
+			if good && inherits {
+				ok = pcCompare(own, func(a *pcAtom) string {
+					if a.v == has {
+						return "has"
+					}
+					if a.op == token.EQL && a.x != nil && (stripIface(a.x) == base && isNilConst(a.y) || stripIface(a.y) == base && isNilConst(a.x)) {
+						return "nobase"
+					}
+					return ""
+				}, func(env map[string]bool) bool { return env["nobase"] || env["has"] }) == ""
 			}
 		}
 		r.Check(ok, "R13.2", "getDefault", fd.Pos(), "hasDef (or no base) ⇒ own default; else base.Default()", "the default of a derived type is not 'own if given, else the base's'")
